@@ -384,8 +384,15 @@ def main():
             names = rng.sample(["index", "temperature", "site", "depth", "lat", "name"], ncols)
             kinds = [rng.choice(["num", "num", "str"]) for _ in names]
             nrows = rng.choice([0, 1, 2, 4, 7, 7, 60])      # 60 rows: a file longer than any sample a reader might sniff
+            awkward = ["", "a", "Diamond St", "x,y", 'say "hi"', " lead", "7", "two\nlines", "para one\n\npara two", " \n x"]
+            if i == 0:
+                # corpus file (independent of the seed): three columns, 60 records, every awkward cell once, all near the end
+                ncols, names, kinds, nrows = 3, ["index", "site", "name"], ["num", "str", "str"], 60
             rows = []
             for ri in range(nrows):
+                if i == 0 and ri >= 50:
+                    rows.append((float(ri), awkward[ri - 50], awkward[(ri - 47) % 10]))
+                    continue
                 if nrows == 60 and ri < 50:
                     # plain cells first, the awkward ones (embedded quotes, commas, line breaks) only near the end of the file
                     rows.append(tuple(float(ri) + 0.5 if k == "num" else "plain%d" % ri for k in kinds))
